@@ -170,7 +170,8 @@ def field_slicing(F, rep):
             if a.get("k") == "Path" and a.get("res") == "local":
                 seen[L.local_name(a)] = a.get("ty") or ""
     for nm, ln in want.items():
-        rep.ob("fields.whole", seen.get(nm) == "[u8; %d]" % ln, "io::slippi::de::player", nm, "name field `%s` must be passed whole ([u8; %d]) to MeleeString::try_from, got %s" % (nm, ln, seen.get(nm)),
+        # by value or behind a shared reference (`Option<&[u8; N]>` parameters): the whole N-byte field either way
+        rep.ob("fields.whole", (seen.get(nm) or "").lstrip("&").strip() == "[u8; %d]" % ln, "io::slippi::de::player", nm, "name field `%s` must be passed whole ([u8; %d]) to MeleeString::try_from, got %s" % (nm, ln, seen.get(nm)),
                sample={"field": nm, "type": seen.get(nm)})
     rep.floor("MeleeString::try_from call sites in player()", len(seen), 3)
     # "every name field is decoded": a decode is conditional only on the presence of its own field (the Option of the array the
